@@ -7,12 +7,14 @@ import checklib as C
 import instgen
 from props import common
 
-MODULE = "Rspirv.Props.C05"
+MODULE = "Rspirv.Props.Reload"
 THEOREMS = ["Rspirv.Props.C05.step_refines", "Rspirv.Props.C05.run_refines", "Rspirv.Props.C05.finalize_refines",
             "Rspirv.Props.C05.C05_accept", "Rspirv.Props.C05.step_shape", "Rspirv.Props.C05.run_shape",
             "Rspirv.Props.C05.C05_shape", "Rspirv.Props.C05.sect_push", "Rspirv.Props.C05.step_sect",
-            "Rspirv.Props.C05.run_sect", "Rspirv.Props.C05.C05_sections"]
-NEEDS = ("header", "core", "decode", "operand_enum", "asm_arms", "parse_operand", "operands")
+            "Rspirv.Props.C05.run_sect", "Rspirv.Props.C05.C05_sections",
+            "Rspirv.Props.Reload.classify_sect_le", "Rspirv.Props.Reload.step_cinv", "Rspirv.Props.Reload.canon_of_load",
+            "Rspirv.Props.Reload.load_canon"]
+NEEDS = ("header", "core", "decode", "operand_enum", "asm_arms", "parse_operand", "operands", "traversals")
 
 # section of the logical layout per module-level class (DESIGN §7.3); independent of reflect.rs and of the model
 SECTION_OF = {"Capability": "s0", "Extension": "s1", "ExtInstImport": "s2", "MemoryModel": "mm", "EntryPoint": "s4",
@@ -102,7 +104,7 @@ def run(ctx):
         hok, herr = C.build_harness(ctx, bins=("impl",))
         have = C.need(ctx, *NEEDS)
         failing = C.prove(ctx, MODULE, THEOREMS, extra_targets=["driver"],
-                          files=["Rspirv/Props/C05.lean", "Rspirv/Model/Loader.lean"]) if have else []
+                          files=["Rspirv/Props/C05.lean", "Rspirv/Props/Reload.lean", "Rspirv/Model/Loader.lean"]) if have else []
     for n, e in failing:
         ctx.issue(f"theorem:{n}", f"Lean obligation no longer checks: {e['msg'][:300]}", witness=e)
     if not hok:
